@@ -6,7 +6,7 @@ RULE = ("lock: scripts of open / close / destroy_database / put / get through na
         "TmpFileSystem (real flock), compared step by step with the extracted lock-table model; races "
         "of 2..6 threads opening the same path simultaneously (exactly one must win when the path is "
         "free, none when it is owned) and races of opens against destroy_database (at most one owner, "
-        "every winner usable); Z: a handle is closed while its background thread is parked inside the "
+        "every winner usable); Z / Y: a handle is closed while its background thread is parked inside the "
         "creation of a table file (a flush is provoked first) and opens are attempted all the while: none "
         "may be admitted before the close has returned; lockp: destroy_database runs on its own thread and is parked (gated file "
         "system) right before it removes the LOCK file and right before it removes the directory, while "
@@ -266,8 +266,10 @@ def gen_cases(tier, rng):
                 steps.append("G%s:x%02x" % (h, rng.randrange(4)))
             elif r < 0.93:
                 steps.append("R%d" % rng.randrange(2, 7))
-            else:
+            elif r < 0.97:
                 steps.append("Z" + h)
+            else:
+                steps.append("Y" + h)
         if rng.random() < 0.5:
             steps.append("Q%d" % rng.randrange(2, 5))
         cases.append("l%d %s" % (i, " ".join(steps)))
@@ -276,7 +278,8 @@ def gen_cases(tier, rng):
 
 def suites(tier, seed, rng):
     return [LockSuite(["k0 Oa Pa:x61=x01 Ob D Ga:x61 Pa:x62=x02 Xa Oc Gc:x61 Gc:x62 Xc R4 Od Gd:x61 Q3",
-                      "k1 Oa Pa:x61=x01 Za Ob Gb:x61 Xb", "k2 Oa Za Za Ob Zb D"] + gen_cases(tier, rng)),
+                      "k1 Oa Pa:x61=x01 Za Ob Gb:x61 Xb", "k2 Oa Za Za Ob Zb D",
+                      "k3 Oa Ya Ob Xb", "k4 Oa Pa:x61=x01 Ya Ya Ob Gb:x61 Xb Oc Yc"] + gen_cases(tier, rng)),
             LockPhasesSuite(gen_phased(tier, rng)),
             LockFdSuite(gen_lockfd(tier, rng))]
 
